@@ -44,6 +44,8 @@ if os.path.exists(src):
 
 # 3. hooks
 hroot = os.path.join(VERIF, "hooks")
+if os.environ.get("VERIF_NO_HOOKS"):
+    hroot = os.path.join(VERIF, "no-such-dir")
 for d, _, files in os.walk(hroot):
     for fn in sorted(files):
         if not fn.endswith(".go"):
@@ -55,7 +57,7 @@ for d, _, files in os.walk(hroot):
 # 3b. generated instrumented copies: every tools/gen_*.py prints a JSON object {repo path: replacement path}
 # (it regenerates the replacement from the CURRENT repo file into .build/gen/)
 import subprocess
-for g in sorted(glob.glob(os.path.join(VERIF, "tools", "gen_*.py"))):
+for g in ([] if os.environ.get("VERIF_NO_HOOKS") else sorted(glob.glob(os.path.join(VERIF, "tools", "gen_*.py")))):
     o = subprocess.check_output([sys.executable, g, REPO, GEN], text=True)
     rep.update(json.loads(o))
 
